@@ -1326,11 +1326,11 @@ fn gen_surgery_gpos(rng: &mut Rng, info: &FontInfo) -> Option<Surgery> {
 /// run sees it (tables installed, text generation focused on the glyphs morx is keyed on).
 fn gen_install(rng: &mut Rng, info: &FontInfo, prop: &str) -> Option<(FontInfo, Vec<Surgery>)> {
     // percentages: morx, bitmaps, vertical
-    let (p_morx, p_kern, p_bitmap, p_vert, p_compact, p_macroman) = match prop {
-        "C02" => (14, 8, 0, 10, 3, 1),
-        "C03" => (8, 3, 8, 8, 4, 4),
-        "C09" => (0, 0, 0, 6, 22, 4),
-        _ => (7, 4, 8, 6, 6, 3),
+    let (p_morx, p_kern, p_bitmap, p_vert, p_compact, p_macroman, p_names) = match prop {
+        "C02" => (14, 8, 0, 10, 3, 1, 0),
+        "C03" => (8, 3, 8, 8, 4, 4, 3),
+        "C09" => (0, 0, 0, 6, 22, 4, 10),
+        _ => (7, 4, 8, 6, 6, 3, if info.axes > 0 { 20 } else { 4 }),
     };
     let mut surgeries = Vec::new();
     let mut focus: Option<Vec<u32>> = None;
@@ -1392,6 +1392,11 @@ fn gen_install(rng: &mut Rng, info: &FontInfo, prop: &str) -> Option<(FontInfo, 
         let first = 1 + rng.below(u64::from(info.num_glyphs - 8).min(40)) as u16;
         surgeries.push(Surgery::MacRomanCmap {
             glyphs: (first..first + 7).collect(),
+        });
+    }
+    if rng.pct(p_names) && info.has("name") {
+        surgeries.push(Surgery::LongNames {
+            variant: rng.below(1 << 16),
         });
     }
     if rng.pct(p_compact) && info.has("hhea") && info.has("hmtx") && info.num_glyphs >= 2 {
